@@ -5,6 +5,7 @@ package ssync
 import (
 	"runtime"
 	"strconv"
+	"sync"
 
 	"verif.local/simrt"
 )
@@ -90,3 +91,86 @@ type Once struct{ st simrt.OnceState }
 
 //go:noinline
 func (o *Once) Do(f func()) { o.st.Do("once", f) }
+
+// ---- the rest of package sync, so that a change to the code under test
+// that starts using it still builds in the instrumented copy ----
+
+// Map and Pool never block: the real ones serve (the simulator runs one
+// goroutine at a time, and in -race builds their internal synchronisation is
+// what the detector should see).
+type (
+	Map  = sync.Map
+	Pool = sync.Pool
+)
+
+// TryLock takes the lock if it is free.
+//
+//go:noinline
+func (m *Mutex) TryLock() bool { return m.st.TryLock(site(1)) }
+
+// TryLock / TryRLock / RLocker of RWMutex (readers are serialised like writers).
+func (m *RWMutex) TryRLock() bool  { return m.TryLock() }
+func (m *RWMutex) RLocker() Locker { return (*rlocker)(m) }
+
+type rlocker RWMutex
+
+func (r *rlocker) Lock()   { (*RWMutex)(r).RLock() }
+func (r *rlocker) Unlock() { (*RWMutex)(r).RUnlock() }
+
+// Cond is a condition variable over a shimmed Locker: Wait releases the
+// lock and parks at a decision point until a later Signal or Broadcast.
+type Cond struct {
+	L       Locker
+	waiters int
+	tickets int
+	gen     int
+}
+
+func NewCond(l Locker) *Cond { return &Cond{L: l} }
+
+//go:noinline
+func (c *Cond) Wait() {
+	c.waiters++
+	my := c.gen
+	c.L.Unlock()
+	simrt.Wait("cond.Wait", func() bool { return c.gen != my || c.tickets > 0 })
+	if c.gen == my {
+		c.tickets--
+	}
+	c.waiters--
+	c.L.Lock()
+}
+
+//go:noinline
+func (c *Cond) Signal() {
+	if c.waiters > c.tickets {
+		c.tickets++
+	}
+	simrt.Yield("cond.Signal")
+}
+
+//go:noinline
+func (c *Cond) Broadcast() {
+	c.gen++
+	c.tickets = 0
+	simrt.Yield("cond.Broadcast")
+}
+
+// OnceFunc, OnceValue and OnceValues as in Go 1.21.
+func OnceFunc(f func()) func() {
+	var o Once
+	return func() { o.Do(f) }
+}
+
+func OnceValue[T any](f func() T) func() T {
+	var o Once
+	var v T
+	return func() T { o.Do(func() { v = f() }); return v }
+}
+
+func OnceValues[T1, T2 any](f func() (T1, T2)) func() (T1, T2) {
+	var o Once
+	var a T1
+	var b T2
+	return func() (T1, T2) { o.Do(func() { a, b = f() }); return a, b }
+}
